@@ -1,7 +1,10 @@
 NOTES = ("Contract-based deductive verification: every claimed check generates verification conditions from the current "
          "text of the functions in /repo named in its evidence file and discharges them with z3/cvc5. Exit codes: 0 held, "
          "1 violation, 2 undecided (solver gave up or a function left the accepted subset), 3 machinery error. "
-         "Fix commits in /repo are listed in known_findings.json as 'fixed'.")
+         "Fix commits in /repo are listed in known_findings.json as 'fixed'. Besides counterexamples of failed obligations, "
+         "known_findings.json holds the findings of a code review by sub-agents (ids R-<property>-<n>, demonstration scripts under "
+         "review/): each check runs the demonstrations of its property on every run -- open ones are printed as KNOWN-FINDING "
+         "(exit 0), repaired ones must pass or are reported as a VIOLATION.")
 CHECKS = {
  "C19": {
   "text": "Proof, for all chunk sizes, capacities >= 1, resource lengths < 2**62, cache states and arguments, that "
